@@ -133,6 +133,8 @@ macro_rules! field_ops {
             opx!(m, concat!($p, ".sum.r"), (v: ffs), rf, <F as Sum<&F>>::sum(v.iter()));
             opx!(m, concat!($p, ".product.v"), (v: ffs), rf, <F as Product<F>>::product(v.into_iter()));
             opx!(m, concat!($p, ".product.r"), (v: ffs), rf, <F as Product<&F>>::product(v.iter()));
+            opx!(m, concat!($p, ".sum.lazy"), (v: ffs), rf, <F as Sum<F>>::sum(v.into_iter().filter(|_| true)));
+            opx!(m, concat!($p, ".product.lazy"), (v: ffs), rf, <F as Product<&F>>::product(v.iter().filter(|_| true)));
             opx!(m, concat!($p, ".cmp"), (a: ff, b: ff), ru, match <F as Ord>::cmp(&a, &b) {
                 Ordering::Less => -1,
                 Ordering::Equal => 0,
